@@ -99,26 +99,27 @@ u.extract(L, 'impl StructLayout::fn new', wrap=('impl StructLayout {', '}'),
         fields_layout_ok(itys(fields@), res.view()),
         res.size as nat == struct_end(itys(fields@), fields@.len()),
 ''',
-          loops={0: ('it', '''
+          desugar_for={0: ('k', 'val')},
+          loops={0: '''
     invariant
-        it.seq() == fields@,
-        0 <= it.index@ <= fields@.len(),
-        offsets@.len() == it.index@,
+        it_k@ == fields@,
+        0 <= k <= fields@.len(),
+        offsets@.len() == k,
         struct_end(itys(fields@), fields@.len()) <= MAX_SIZE(),
         forall|i: int| 0 <= i < fields@.len() ==> pow2_le8(#[trigger] talign(itys(fields@)[i])),
-        current_offset as nat == struct_end(itys(fields@), it.index@ as nat),
+        current_offset as nat == struct_end(itys(fields@), k as nat),
         pow2_le8(max_align as nat),
-        forall|i: int| 0 <= i < it.index@ ==> #[trigger] offsets@[i] as nat == rup(struct_end(itys(fields@), i as nat), talign(itys(fields@)[i])),
-        forall|i: int| 0 <= i < it.index@ ==> pow2_le8(#[trigger] talign(itys(fields@)[i])) && talign(itys(fields@)[i]) <= max_align,
-        it.index@ == 0 ==> max_align == 1,
-        it.index@ > 0 ==> exists|i: int| 0 <= i < it.index@ && #[trigger] talign(itys(fields@)[i]) == max_align,
-''')},
+        forall|i: int| 0 <= i < k ==> #[trigger] offsets@[i] as nat == rup(struct_end(itys(fields@), i as nat), talign(itys(fields@)[i])),
+        forall|i: int| 0 <= i < k ==> pow2_le8(#[trigger] talign(itys(fields@)[i])) && talign(itys(fields@)[i]) <= max_align,
+        k == 0 ==> max_align == 1,
+        k > 0 ==> exists|i: int| 0 <= i < k && #[trigger] talign(itys(fields@)[i]) == max_align,
+    decreases fields@.len() - k
+'''},
           inserts=[
               ('@loop_start:0', 'after', '''
             proof {
                 let f = itys(fields@);
-                let k = it.index@;
-                assert(f[k] == *field.0);
+                assert(f[k as int] == *fields@[k as int].0);
                 lemma_struct_end_step(f, k as nat);
                 lemma_struct_end_le(f, (k + 1) as nat);
             }
@@ -160,32 +161,33 @@ u.extract(L, 'fn calc_single',
 ''',
           ret=None,
           loop_count=2,
+          desugar_for={0: ('mi', 'ref'), 1: ('vi', 'ref')},
           loops={
-              0: ('it', '''
+              0: '''
     invariant
         pointer_bit_width == pbw(), pbw() == 32 || pbw() == 64,
         is_struct_ty(*ty.0), ty_wf(*ty.0),
-        it.seq().len() == members@.len(),
-        forall|i: int| 0 <= i < members@.len() ==> *(#[trigger] it.seq()[i]) == members@[i],
+        *it_mi == members,
         members@.len() == members_of(*ty.0).len(),
         forall|i: int| 0 <= i < members@.len() ==> #[trigger] members@[i] == members_of(*ty.0)[i].ty,
-        0 <= it.index@ <= members@.len(),
-        forall|i: int| 0 <= i < it.index@ ==> entry_ok(*(#[trigger] members@[i]).0),
-'''),
-              1: ('it', '''
+        0 <= mi <= members@.len(),
+        forall|i: int| 0 <= i < mi ==> entry_ok(*(#[trigger] members@[i]).0),
+    decreases members@.len() - mi
+''',
+              1: '''
     invariant
         pointer_bit_width == pbw(), pbw() == 32 || pbw() == 64,
         enum_variants(*ty.0) == Some(*variants), ty_wf(*ty.0),
-        it.seq().len() == variants@.len(),
-        forall|i: int| 0 <= i < variants@.len() ==> *(#[trigger] it.seq()[i]) == variants@[i],
-        0 <= it.index@ <= variants@.len(),
-        forall|i: int| 0 <= i < it.index@ ==> entry_ok(*(#[trigger] variants@[i]).0)
+        *it_vi == *variants,
+        0 <= vi <= variants@.len(),
+        forall|i: int| 0 <= i < vi ==> entry_ok(*(#[trigger] variants@[i]).0)
             && tsize(*variants@[i].0) <= max_variant_size && talign(*variants@[i].0) <= max_variant_align,
-        it.index@ == 0 ==> max_variant_size == 0,
-        it.index@ > 0 ==> exists|i: int| 0 <= i < it.index@ && tsize(*(#[trigger] variants@[i]).0) == max_variant_size,
+        vi == 0 ==> max_variant_size == 0,
+        vi > 0 ==> exists|i: int| 0 <= i < vi && tsize(*(#[trigger] variants@[i]).0) == max_variant_size,
         pow2_le8(max_variant_align as nat),
         max_variant_size < MAX_SIZE(),
-'''),
+    decreases variants@.len() - vi
+''',
           },
           inserts=[
               ('let struct_layout = StructLayout::new(members);', 'before', '''
